@@ -845,7 +845,7 @@ func (m *Model) Apply(o Op, pr *Pred) string {
 		}
 		pr.Events = append(pr.Events, fmt.Sprintf(
 			`%sRich(a: Int(%d), b: %q, c: [UInt8(1), UInt8(2), UInt8(%d)], d: {"k": Int(%d)}, e: 0x0000000000000001, f: %s, g: Type<%sR>, h: /storage/p, i: %s, k: UFix64(1.50000000), l: [%s], m: %v, n: Character("x"))`,
-			worldPrefix, n, fmt.Sprint(n), n%200, n, f, worldPrefix, VS(n, []int64{n}, nil).Canon(), VS(1, nil, nil).Canon(), n > 3))
+			worldPrefix, n, fmt.Sprint(n), n%200, n, f, worldPrefix, VS(n, []int64{n}, nil).Canon(), richS().Canon(), n > 3))
 
 	default:
 		if f, ok := m.applyContainers(o, pr); ok {
@@ -942,4 +942,11 @@ func (m *Model) Predict(ops []Op, isScript bool) (*Pred, *Model) {
 		return pr, m
 	}
 	return pr, scratch
+}
+
+func richS() *Val {
+	s := VS(1, nil, nil)
+	s.F["o"] = VSome(TOpt(TString), VStr("z"))
+	s.F["oa"] = VSome(TOpt(TArr(TInt)), VArr(TArr(TInt), VInt(1)))
+	return s
 }
